@@ -26,6 +26,8 @@ THREAD_MUTEX = "Oomd::Stats::thread_mutex_"
 
 
 def run(ctx):
+    # locals / parameters the rules below refer to by name (a rename makes the analysis 'broken', never a violation)
+    ctx.anchor(ctx.fn1('Oomd::Stats::processMsg'), 'mode', 'num_read', 'byte_buf', 'sockfd', 'root')
     P, cg = ctx.prog, ctx.cg
     LA = LockAnalysis(P, cg)
     # ------------------------------------------------ guarded-by
